@@ -395,7 +395,7 @@ mutual
         (if ext then 32 + body.length < 0xFFFFFFFFFFFFFFFF else 24 + body.length < 0xFFFFFF)
     | .sect g type attrs state secs =>
       g.length == 16 && type < 256 && attrs < 256 && state < 256 && supportedFile type &&
-        !secs.isEmpty && wfSecs secs && sizeSecs 0 secs + 32 < 0xFFFFFFFFFFFFFFFF
+        !secs.isEmpty && wfSecs secs && sizeSecs 0 secs + 32 < 0x4000000000000000
   /-- files laid out from offset `off` in a volume of `length` bytes: each header lies strictly
       inside the walk range, each file fits, and each file with a data alignment sits where the
       alignment rule puts it -/
@@ -448,7 +448,7 @@ mutual
          | none => true
          | some e => e.fvName.length == 16 && ehoOf blocks ext < 65536 && 20 + e.data.length < 4294967296 &&
                      ehoOf blocks ext + 20 < length) &&
-        length % 8 == 0 && length < 0xFFFFFFFFFFFFFFFF && 64 ≤ length &&
+        length % 8 == 0 && length < 0x4000000000000000 && 64 ≤ length &&
         wfFiles pre length files &&
         -- the last file is followed by nothing, or by an erased header that lies inside the volume
         (endFiles pre files + 24 < length → alignUp (endFiles pre files) 8 + 32 ≤ length) &&
@@ -457,19 +457,19 @@ mutual
     | .other zv g attrs rev rsv blocks body =>
       zv.length == 16 && g.length == 16 && g != guidFFS2 && g != guidFFS3 &&
         attrs < 4294967296 && attrs &&& 0x800 != 0 && rev < 256 && rsv < 256 &&
-        blocks.all blockOk && fvHdrLen blocks < 65536 && fvHdrLen blocks + body.length < 0xFFFFFFFFFFFFFFFF
+        blocks.all blockOk && fvHdrLen blocks < 65536 && fvHdrLen blocks + body.length < 0x4000000000000000
 end
 
-/-- the volume scan finds volume `v` exactly after padding `p` (no `_FVH` at an earlier probe) -/
-def scanOk (p : Bytes) (v : FvI) : Bool :=
-  findFvOffset (p ++ (serFv v).take 48) == some p.length
-
-def wfItems : List (Bytes × FvI) → Bool
-  | [] => true
-  | (p, v) :: is => wfFv v && scanOk p v && wfItems is
+/-- every volume is well formed, and the volume scan (probing for `_FVH` at 8-byte steps from offset
+    32 of what is left of the region) finds each volume exactly at the end of the padding before it:
+    the padding is 8-aligned and holds no `_FVH` at a probed position -/
+def wfItems : List (Bytes × FvI) → Bytes → Bool
+  | [], _ => true
+  | (p, v) :: is, tail =>
+    wfFv v && findFvOffset (serItems ((p, v) :: is) ++ tail) == some p.length && wfItems is tail
 
 def wfBios (b : BiosI) : Bool :=
-  !b.items.isEmpty && wfItems b.items && findFvOffset b.tail == none
+  !b.items.isEmpty && wfItems b.items b.tail && findFvOffset b.tail == none
 
 def wfReg : RegI → Bool
   | .bios b => wfBios b
@@ -491,29 +491,47 @@ def insertEntry (e : Nat × FlashRegion) : List (Nat × FlashRegion) → List (N
 
 def sortEntries (l : List (Nat × FlashRegion)) : List (Nat × FlashRegion) := l.foldr insertEntry []
 
-/-- the regions in flash order agree with the sorted selected table entries; gaps fill the rest -/
+def RegI.isGap : RegI → Bool
+  | .gap _ => true
+  | _ => false
+
+/-- number of 4 KiB blocks of a region -/
+def RegI.blocks (r : RegI) : Nat := r.data.length / 4096
+
+/-- the kind of a region agrees with the index of its table entry -/
+def kindOk : RegI → Nat → Bool
+  | .bios _, i => i == 0
+  | .me _, i => i == 1
+  | .raw j _, i => i == j && 2 ≤ j
+  | .gap _, _ => false
+
+/-- the regions in flash order (starting at block `blk`) agree with the sorted selected table
+    entries; gaps fill the rest: every region is a whole number (≥ 1) of 4 KiB blocks, a non-gap
+    region is described by the next entry (right index, base and limit), a gap ends at or before the
+    next entry -/
 def matchRegs : List RegI → Nat → List (Nat × FlashRegion) → Bool
   | [], _, es => es.isEmpty
   | r :: rs, blk, es =>
-    let n := r.data.length / 4096
-    r.data.length % 4096 == 0 && n ≥ 1 &&
-    (match r with
-     | .gap _ =>
-       (match es with
-        | [] => true
-        | (_, fr) :: _ => blk + n ≤ fr.base) && matchRegs rs (blk + n) es
-     | _ =>
-       match es with
-       | [] => false
-       | (i, fr) :: es' =>
-         (match r with | .bios _ => i == 0 | .me _ => i == 1 | .raw j _ => i == j && 2 ≤ j | .gap _ => false) &&
-           fr.base == blk && fr.limit + 1 == blk + n && matchRegs rs (blk + n) es')
+    r.data.length % 4096 == 0 && 1 ≤ r.blocks &&
+    (if r.isGap then
+      (match es with
+       | [] => true
+       | (_, fr) :: _ => blk + r.blocks ≤ fr.base) && matchRegs rs (blk + r.blocks) es
+     else
+      match es with
+      | [] => false
+      | (i, fr) :: es' =>
+        kindOk r i && fr.base == blk && fr.limit + 1 == blk + r.blocks && matchRegs rs (blk + r.blocks) es')
 
 /-- two gaps never follow each other (the reader reports one gap region) -/
 def noAdjacentGaps : List RegI → Bool
   | .gap _ :: .gap _ :: _ => false
   | _ :: rs => noAdjacentGaps rs
   | [] => true
+
+def RegI.isBios : RegI → Bool
+  | .bios _ => true
+  | _ => false
 
 def wfFlash (f : FlashI) : Bool :=
   let d := treeDesc f.desc
@@ -522,12 +540,13 @@ def wfFlash (f : FlashI) : Bool :=
     d.regionStart + 64 < 4096 &&
     ((d.region.regions.head?.map (·.valid)).getD false) &&
     total / 4096 < 65536 &&
-    f.regions.all wfReg && noAdjacentGaps f.regions &&
+    f.regions.all wfReg && f.regions.any RegI.isBios && noAdjacentGaps f.regions &&
     matchRegs f.regions 1 (sortEntries (selectEntries d.map.numberOfRegions total d.region.regions 0))
 
 def wf : Img → Bool
   | .flash f => wfFlash f
-  | .bios b => wfBios b
+  -- a bare BIOS region must not look like a flash image (signature at offset 16 or 0)
+  | .bios b => wfBios b && (findSignature (serBios b)).isNone
 
 /-- the well-formedness predicate of the reference grammar -/
 def WF (i : Img) : Prop := wf i = true
